@@ -24,6 +24,21 @@ REPLAYS = os.path.join(ROOT, "replays")
 KNOWN = os.path.join(ROOT, "known_findings.json")
 REPO = "/repo"
 
+# Sensitivity runs (tools/scratch.py, used by tools/mutants.py and
+# tools/seeded.py) run a *snapshot copy* of this directory against a scratch
+# copy of the repository, so that neither /repo nor /verif/evidence is
+# touched: the snapshot lives outside /verif, FCV_REPO names the repository
+# copy, and the snapshot's harness manifest is pointed at it. The registered
+# commands never set FCV_REPO, and /verif itself is never rewritten.
+if os.environ.get("FCV_REPO") and ROOT != "/verif":
+    REPO = os.environ["FCV_REPO"]
+    _tp = os.path.join(HARNESS, "Cargo.toml")
+    _t = open(_tp).read()
+    import re as _re
+    _t2 = _re.sub(r'futures-concurrency = \{ path = "[^"]*"', 'futures-concurrency = { path = "%s"' % REPO, _t)
+    if _t2 != _t:
+        open(_tp, "w").write(_t2)
+
 CONFIGS = {
     "std": ["--no-default-features", "--features", "cfg-std"],
     "alloc": ["--no-default-features", "--features", "cfg-alloc"],
@@ -189,7 +204,7 @@ def run_engine(prop, tier, seed, extra_args=None):
         if os.path.exists(frag_path):
             os.remove(frag_path)
         cmd = [binary(cfg), "run", "--prop", prop, "--tier", tier, "--seed", str(seed),
-               "--threads", str(os.cpu_count() or 16), "--replay-dir", REPLAYS, "--out", frag_path]
+               "--threads", os.environ.get("FCV_THREADS", str(os.cpu_count() or 16)), "--replay-dir", REPLAYS, "--out", frag_path]
         if extra_args:
             cmd += extra_args
         p = subprocess.run(cmd, env=env(), stdout=subprocess.PIPE, stderr=subprocess.STDOUT, text=True)
